@@ -46,9 +46,8 @@ class FlattenComponentsIFilter(BaseIFilter):
         ):
             glyph = glyphSet.get(glyphName)
             if glyph is not None:
-                flattened = _flattenGlyphComponents(
-                    glyph, interpolatedLayer or glyphSet
-                )
+                if _flattenGlyphComponents(glyph, interpolatedLayer or glyphSet):
+                    flattened = True
 
         return flattened
 
